@@ -47,7 +47,7 @@ TARGETS = [
 ]
 BOUNDS = {
     "rules": "two detections d0, d1 from a pool of 14 shapes x 6 condition forms",
-    "transformations": "35 instances (incl. hashes_fields) (field mapping 1:1 / 1:n / keyword->field / prefix mapping / prefix / suffix / scoped, drop item, add_condition plain / negated / template, replace_string (incl. identity), map_string 1:1 / 1:n, case, set_value, convert_type, regex plain, nest, chains, 'matches nothing' instances)",
+    "transformations": "39 instances (incl. hashes_fields, regex ignore-case flag / brackets, change_logsource followed by log source dependent items) (field mapping 1:1 / 1:n / keyword->field / prefix mapping / prefix / suffix / scoped, drop item, add_condition plain / negated / template, replace_string (incl. identity), map_string 1:1 / 1:n, case, set_value, convert_type, regex plain, nest, chains, 'matches nothing' instances)",
     "thorough": "pool of 28 shapes (adds Hashes single / under all / by length / repeated algorithm, endswith, contains with wildcard, lt, exists, cased, re|i, list of maps with two fields, mixed number/string list, bool, contains|all next to a second field) x 12 condition forms (adds all of, 1 of them, negated quantifier, nested)",
     "placeholders": "4 placeholder pipelines (value list, include/exclude splits in both orders, wildcard then value list) x two detections from an 11-shape pool with `expand` (plain, contains, startswith, cased, regular expressions with flags, lists, two placeholders in one value) x 6 conditions, compared with the conversion of the hand-expanded document",
     "outside": "external-source and Jinja-template transformations (C16 covers their gating); values with backslashes before wildcards (open known finding of C05); extract_fields",
@@ -253,6 +253,24 @@ def to_regex_atom(k):
     return ("atom", k)
 
 
+def _rx_escape(ch):
+    return ("\\" + ch) if ch in ".*+?^$[](){}\\|" else ch
+
+
+def to_regex_atom_flag(k):
+    if k[0] == "glob" and len(k[3]) > 0:
+        text = "".join(".*" if t == M else "." if t[0] == "S" else _rx_escape(t[1]) for t in k[3])
+        return ("atom", ("re", k[2], "(?i)" + text))
+    return ("atom", k)
+
+
+def to_regex_atom_brackets(k):
+    if k[0] == "glob" and len(k[3]) > 0:
+        text = "".join(".*" if t == M else "." if t[0] == "S" else (f"[{t[1].lower()}{t[1].upper()}]" if t[1].isalpha() else _rx_escape(t[1])) for t in k[3])
+        return ("atom", ("re", k[2], text))
+    return ("atom", k)
+
+
 def num_to_str(k):
     if k[0] == "num" and k[2] not in ("true", "false"):
         return ("atom", ("glob", False, k[1], tuple(ref_parse(k[2]))))
@@ -328,6 +346,10 @@ TRANS = [
     ("map-string-drop", [{"type": "map_string", "mapping": {"v5": []}}], lambda d: ref(d, values(on_strings(lambda t: [] if t == "v5" else None)))),
     ("replace-string-empty", [{"type": "replace_string", "regex": "^v0$", "replacement": ""}], lambda d: ref(d, values(on_strings(lambda t: "" if t == "v0" else None, numbers=True)))),
     ("hashes-fields", [{"type": "hashes_fields", "valid_hash_algos": list(HASH_ALGOS), "field_prefix": "File"}], lambda d: ref(d, hashes_fn)),
+    ("regex-ignore-case-flag", [{"type": "regex", "method": "ignore_case_flag"}], lambda d: ref(d, values(to_regex_atom_flag))),
+    ("regex-ignore-case-brackets", [{"type": "regex", "method": "ignore_case_brackets"}], lambda d: ref(d, values(to_regex_atom_brackets))),
+    ("change-logsource-then-template", [{"type": "change_logsource", "category": "newcat", "product": "np"}, {"type": "add_condition", "conditions": {"fC": "$category-$product"}, "template": True}], lambda d: add_cond(d, "fC", "newcat-np")),
+    ("change-logsource-then-scoped", [{"type": "change_logsource", "category": "newcat", "product": "np"}, {"type": "field_name_suffix", "suffix": "_s", "rule_conditions": [{"type": "logsource", "category": "cat"}]}, {"type": "field_name_suffix", "suffix": "_n", "rule_conditions": [{"type": "logsource", "category": "newcat", "product": "np"}]}], lambda d: ref(d, rename(lambda x: [x + "_n"]))),
     ("set-value-false", [{"type": "set_value", "value": False, "field_name_conditions": [{"type": "include_fields", "fields": ["fB"]}]}], lambda d: ref(d, values(lambda k: ("atom", ("num", k[2] if k[0] in ("glob", "fieldref") else k[1], "false")), ["fB"]))),
 ]
 
